@@ -924,6 +924,8 @@ impl StunClient {
                         events.push(StunClientEvent::OutputPacket(transaction.packet.clone()));
                     }
                     None => {
+                        // The transaction has reached its final outcome
+                        self.transactions.remove(&transaction_id);
                         let protection_violated = self.mechanism.as_mut().is_some_and(|m| {
                             m.signal_protection_violated_on_timeout(&transaction_id)
                         });
